@@ -1,5 +1,5 @@
 (* Properties/C02.v — require() selects the file the Node.js CommonJS resolution algorithm selects. *)
-From GN Require Import Common.Base Model.Paths Model.Require Spec.NodeResolve Proofs.ResolveProofs Proofs.RequireInv Proofs.RequireSelect Gen.RequireGlue Model.ResolveSrc.
+From GN Require Import Common.Base Model.Paths Model.Require Spec.NodeResolve Proofs.ResolveProofs Proofs.RequireInv Proofs.RequireSelect Proofs.PathsCanon Gen.RequireGlue Model.ResolveSrc.
 Open Scope Z_scope.
 
 (* for every file tree, every absolute requiring directory and every request — relative, absolute or bare — the probing
@@ -28,14 +28,20 @@ Theorem C02_history_independent : forall fs nat_reg fuel calls d r st' x,
 Proof. exact resolve_history_independent. Qed.
 Print Assumptions C02_history_independent.
 
-(* ... hence the Node.js file in every reachable state, for request paths in canonical form *)
+(* ... hence the Node.js file in every reachable state, from every clean requiring directory (what filepath.Dir of a module's
+   path is: parse, pjoin and pdir only produce clean paths, and a clean path is recovered from its rendering) *)
 Theorem C02_node_file_in_every_state : forall fs nat_reg fuel calls d r st' m,
-  is_file_or_dir_path r = true -> rooted d = true -> no_double_nm (rev (segs d)) ->
-  (let p := pjoin (if is_abs r then None else Some d) r in parse (render p) = p) ->
+  is_file_or_dir_path r = true -> rooted d = true -> no_double_nm (rev (segs d)) -> clean d ->
   require_ fs nat_reg fuel (run_tops fs nat_reg fuel init_state calls) d r = (st', ROk m) ->
   exists f, file_owner st' m = Some f /\ spec_resolve fs d r = SFile f.
-Proof. exact resolve_is_node_in_every_state. Qed.
+Proof. exact resolve_is_node_from_clean_dir. Qed.
 Print Assumptions C02_node_file_in_every_state.
+
+(* the path representation is canonical: the rendered string identifies the path *)
+Theorem C02_paths_canonical : (forall s, clean (parse s)) /\ (forall b rel, clean b -> clean (pjoin (Some b) rel)) /\
+  (forall p, clean p -> clean (pdir p)) /\ (forall p, clean p -> parse (render p) = p).
+Proof. exact (conj clean_parse (conj clean_pjoin (conj clean_pdir parse_render))). Qed.
+Print Assumptions C02_paths_canonical.
 
 (* non-vacuity: the history that used to go wrong. ./pkg has "main": "lib"; ./pkg/lib is a directory with its own package.json
    ("main": "alt.js") and an index.js. After require('./pkg/lib') (-> alt.js), require('./pkg') still yields lib/index.js *)
